@@ -47,6 +47,15 @@ def gen_histories(chk, mdl, n):
     for v in range(256):
         h = "%d.%d.%d.%d" % (v, 255 - v, (v * 7 + 3) % 256, v)
         out.append(uris.hist([('p', 0, "s://u@" + h + ":8/a/b"), ('o', 0), ('n', 0, 63), ('p', 1, "//" + h + "/c"), ('p', 2, "s://x/y"), ('a', 3, 1, 2, 0), ('r', 4, 3, 2, 0), ('o', 4)]))
+    # results of a resolution whose path begins with an empty segment without being absolute (a host-less rootless base, a reference
+    # that climbs out of it) and still holds percent-encoded dot segments: only the normalization that follows decodes and removes them
+    for segs in list(__import__("itertools").product(["", "..", "%2E%2E", "%2e", "x"], repeat=4)) + list(__import__("itertools").product(["", "..", "%2E%2E", "x"], repeat=5)) \
+            + [("..", "", "x", "%2E%2E", "", "y"), ("..", "", "x", "%2e", "", "y"), ("..", "", "", "x", "%2E%2E", "y")]:
+        ref = "/".join(segs)
+        if not ref or ref.startswith("/") or "%" not in ref or "" not in segs[1:]: continue
+        for k, b in enumerate(("s:a/b", "s:a", "s:/a/b", "s://h/a/b")):
+            if (len(out) + k) % (3 if n < 20000 else 1): continue
+            out.append(uris.hist([('p', 0, ref), ('p', 1, b), ('a', 2, 0, 1, 0), ('n', 2, 8), ('n', 2, 63), ('o', 2)]))
     for _ in range(n):
         steps = []
         L = r.choice([3, 5, 8, 12])
